@@ -3,5 +3,5 @@
 set -e
 cd "$(dirname "$0")"
 timeout 600 coqc -Q ../coq BU ../coq/Extract/Extract.v >/dev/null
-timeout 600 ocamlfind ocamlopt -O2 -w -a -package zarith -linkpkg model.mli model.ml driver.ml -o driver 2>&1 || \
-timeout 600 ocamlfind ocamlopt -w -a -package zarith -linkpkg model.mli model.ml driver.ml -o driver
+timeout 600 ocamlfind ocamlopt -O2 -w -a -package zarith -linkpkg zx.ml model.mli model.ml driver.ml -o driver 2>&1 || \
+timeout 600 ocamlfind ocamlopt -w -a -package zarith -linkpkg zx.ml model.mli model.ml driver.ml -o driver
